@@ -1,5 +1,6 @@
 """Small-scope enumerations ("matrices"): boundary arguments x small states, executed on implementation and model.
 Quick runs a seeded sample, thorough runs everything.  Each case is a short event list on a fresh server."""
+import zlib
 import itertools, random, time
 import corr, gen, canon as Cn
 import campaigns as Cp
@@ -194,7 +195,7 @@ def scan_filter_cases():
 
 
 def run_cases(res, prop, cases, tier, seed, t_end, sample, observers=(), scope=None, versions=(6, 7), label='matrix'):
-    rng = random.Random(seed * 31 + hash(label) % 997)
+    rng = random.Random(seed * 31 + zlib.crc32(label.encode()) % 997)
     cases = list(cases)
     if tier == 'quick' and len(cases) > sample:
         cases = rng.sample(cases, sample)
